@@ -40,6 +40,8 @@ type c14World struct {
 	sawRepeatOrUnnamedBeforeQuorum bool
 	sawSpelled                     bool
 	replaced, oddSize              int
+	idle                           []chain.Account // registered, never proved anything
+	big                            *sFile          // the file every active provider proves (one replica slot left free)
 	fired                          int
 }
 
@@ -397,7 +399,7 @@ func newC14World(c *chain.Chain, n, m int64, nProv, nSameDomain, nIdle, nUnreg i
 		act = append(act, add(45+i, fmt.Sprintf("http://node%d:3333", i), true))
 	}
 	for i := 0; i < nIdle; i++ {
-		add(50+i, fmt.Sprintf("https://idle%d.idledom%d.org", i, i), true)
+		w.idle = append(w.idle, add(50+i, fmt.Sprintf("https://idle%d.idledom%d.org", i, i), true))
 	}
 	for i := 0; i < nUnreg; i++ {
 		add(60+i, "", false)
@@ -417,6 +419,7 @@ func newC14World(c *chain.Chain, n, m int64, nProv, nSameDomain, nIdle, nUnreg i
 		w.prove(a, big)
 		w.active[a.Bech] = true
 	}
+	w.big = big
 	return w
 }
 
@@ -509,6 +512,25 @@ func TestC14(t *testing.T) {
 				}
 			},
 		})
+		// after a restart from an exported genesis nobody holds a proof record any more (they are not part of the genesis);
+		// a provider that now takes the free replica slot is the only one holding a proof, so a form about it can name
+		// nobody - unless forms are filled from something else than the proofs providers currently hold
+		if len(w.idle) > 0 && rapid.Bool().Draw(rt, "restartAtTheEnd") {
+			w.restartStorage()
+			w.forms = map[string]*c14Form{}
+			for _, fm := range w.c.App.StorageKeeper.GetAllReport(w.f.Ctx) {
+				w.c.App.StorageKeeper.RemoveReport(w.f.Ctx, fm.Prover, fm.Merkle, fm.Owner, fm.Start)
+			}
+			for _, fm := range w.c.App.StorageKeeper.GetAllAttestation(w.f.Ctx) {
+				w.c.App.StorageKeeper.RemoveAttestation(w.f.Ctx, fm.Prover, fm.Merkle, fm.Owner, fm.Start)
+			}
+			joiner := w.idle[0]
+			if w.prove(joiner, w.big) {
+				rec.Count("histories-with-a-restart-and-a-new-prover")
+				fail(w.request("report", w.everyone[0], joiner.Bech, w.big))
+				fail(w.request("attest", joiner, joiner.Bech, w.big))
+			}
+		}
 		pairsSeen[fmt.Sprintf("%d/%d", n, m)] = true
 		rec.Count(fmt.Sprintf("n=%d,m=%d", n, m))
 		if w.fired > 0 {
